@@ -260,6 +260,18 @@ func (t *tr) expr(e ast.Expr) string {
 				return r
 			}
 		}
+		if r, ok := t.spec.Rename[tn]; ok && strings.HasPrefix(r, "struct:") {
+			// named-field literal of a model structure with Go's field names
+			var fields []string
+			for _, e := range x.Elts {
+				kv, ok := e.(*ast.KeyValueExpr)
+				if !ok {
+					return t.bad("positional composite literal "+tn, x)
+				}
+				fields = append(fields, exprString(kv.Key)+" := "+t.expr(kv.Value))
+			}
+			return "({ " + strings.Join(fields, ", ") + " } : " + strings.TrimPrefix(r, "struct:") + ")"
+		}
 		if r, ok := t.spec.Rename[tn]; ok {
 			var vals []string
 			for _, e := range x.Elts {
@@ -341,6 +353,10 @@ func (t *tr) call(c *ast.CallExpr) string {
 	switch full {
 	case "time.Now":
 		return "now"
+	case "append":
+		if len(c.Args) == 2 {
+			return "(Go.append " + t.expr(c.Args[0]) + " " + t.expr(c.Args[1]) + ")"
+		}
 	case "len":
 		return "(Go.len " + t.expr(c.Args[0]) + ")"
 	case "string", "jose.SignatureAlgorithm", "[]byte", "oidc.GrantType", "oidc.ResponseType", "int", "int64", "uint64", "time.Duration", "oidc.Time", "Time":
